@@ -40,7 +40,15 @@ func TestMain(m *testing.M) {
 			"protected x in-grace, times low watermark, times {TrimOpenConns, background, ForceTrim}, judged by the same oracle. TestTrimEnumeratedWide: "+
 			"every multiset of up to 3 out-of-grace one-connection peers over total in {MinInt, -MaxInt/2-2, -1, 0, 1, MaxInt/2+1, MaxInt} x protected, "+
 			"times low watermark 1..2, times the three kinds of trim, same oracle (non-trivial there = the trim closed one and kept the other of two "+
-			"eligible peers whose totals are further apart than MaxInt). TestConcurrent: "+
+			"eligible peers whose totals are further apart than MaxInt). TestTrimOverlap: OVERLAPPING TRIM CALLS. A constructed population (2..8 peers, 1..2 conns, values -2..6, "+
+			"one in three connected after the grace period of the others has passed = still in grace, one in five protected; low 1..3), then a group of 2..3 trim calls "+
+			"(TrimOpenConns and ForceTrim in every order: force behind regular, regular behind force, same kind twice, three calls), each on its own goroutine: "+
+			"the first is parked inside the CloseWithError of the first connection it closes (harness code) or, one group in three, all calls are started from inside the "+
+			"callback of an identity UpsertTag on a connected peer (so a first trim that closes nothing holds up the others too); every later call gets a bounded number "+
+			"of scheduler yields to reach whatever the manager makes it wait on, then the first is let go. Optionally the Disconnected notifications are delivered, "+
+			"0..3 new connections arrive and a second group runs. Each call is judged when it RETURNS: the connections it closed itself (by goroutine) obey the rules "+
+			"of its kind, and if the count was above the low watermark at most low-watermark connections are left open among the peers eligible for its kind, counting "+
+			"as closed whatever any overlapping trim had closed by then (eligible for a forced trim = every unprotected peer, in grace or not). TestConcurrent: "+
 			"the same operations from several goroutines with an interval-relaxed oracle, including increments of the shared tag whose callback "+
 			"starts a second operation of the same goroutine on the same peer (increment, own tag, bump, connect, disconnect, trims) and yields. "+
 			"NON-TRIVIAL = some trim closed >= 1 connection while >= 1 protected or in-grace peer with open connections existed (concurrent test: "+
@@ -54,6 +62,7 @@ func TestMain(m *testing.M) {
 		"decay schedule modelled from the documented semantics: the decayer ticks every Resolution (from the manager's creation); a tag is decayed once per effective Interval (DecayingTag.Interval()), first one Interval after the decayer tick at or before its registration; only intervals that are multiples of the resolution (or shorter than it) are generated",
 		"synctest virtual time; benbjohnson/clock.New() follows it",
 		"tag lifecycle: the 'closure still queued' schedule is pinned by parking the decayer goroutine in a bump function until the Close and the RegisterDecayingTag have returned; only the closure is queued inside that window (the decayer picks among several non-empty queues at random, which would make the case depend on more than the draws); whether a registration is refused is not asserted",
+		"overlapping trims: nothing else happens between the first call and the last return (virtual time stands still), so all calls are judged against one population; a regular trim that finds another trim running may return without closing anything itself once that trim has finished (what is left is judged, not who closed it); a ForceTrim is held to the bound over all unprotected peers because it documents that it ignores the grace period; closes are attributed to a call by the goroutine that made them (a trim closes on its caller's goroutine)",
 		"overlapped operations: the window is the upsert callback; the second operation gets a bounded number of scheduler yields (not time: a goroutine waiting for a mutex keeps a synctest bubble busy) to run inside it. A manager that holds the peer's lock across the callback serialises the two (label overlap:second-waited-for-the-upsert); both serial orders are accepted",
 	)
 	hx.Main(m)
